@@ -414,4 +414,94 @@ theorem mkSquashData_eq (P : Prods) (suffix : List Name) :
         simp [-List.length_eq_zero_iff] at hc
         simp [hs, hc, ih, squashOK, hr, -List.length_eq_zero_iff]
 
+/-! ### `AnyTokenExcept` -/
+
+/-- what an argument of `ProdSequence` stands for -/
+def SymArg.denote (terminals : List Name) : SymArg → List Name
+  | .sym s => [s]
+  | .anyExcept ex => terminals.filter fun t => decide (t ∉ ex)
+
+theorem getTokens_ok {terminals ex out : List Name} (h : getTokens terminals ex = .ok out) :
+    out = terminals.filter fun t => decide (t ∉ ex) := by
+  unfold getTokens at h
+  split at h
+  · cases h
+  · cases h; rfl
+
+theorem expandArgs_ok {terminals : List Name} {args : List SymArg} {out : List Name}
+    (h : expandArgs terminals args = .ok out) : out = args.flatMap (SymArg.denote terminals) := by
+  induction args generalizing out with
+  | nil => simp [expandArgs] at h; subst h; rfl
+  | cons a rest ih =>
+    cases a with
+    | sym s =>
+      simp only [expandArgs] at h
+      cases hr : expandArgs terminals rest with
+      | error e => simp [hr] at h
+      | ok r =>
+        simp [hr] at h
+        subst h
+        simp [List.flatMap_cons, SymArg.denote, ih hr]
+    | anyExcept ex =>
+      simp only [expandArgs] at h
+      cases hg : getTokens terminals ex with
+      | error e => simp [hg] at h
+      | ok ts =>
+        cases hr : expandArgs terminals rest with
+        | error e => simp [hg, hr] at h
+        | ok r =>
+          simp [hg, hr] at h
+          subst h
+          simp [List.flatMap_cons, SymArg.denote, ih hr, getTokens_ok hg]
+
+theorem seqSymbols_ok {terminals : List Name} {args : List SymArg} {out : List Name}
+    (h : seqSymbols terminals args = .ok out) : out = args.flatMap (SymArg.denote terminals) := by
+  unfold seqSymbols at h
+  split at h
+  · cases h
+  · exact expandArgs_ok h
+
+/-- what an entry of a list of productions stands for -/
+def ProdArg.denote (terminals : List Name) : ProdArg → List (List Name)
+  | .empty => [[]]
+  | .tuple p => [p]
+  | .anyExcept ex => (terminals.filter fun t => decide (t ∉ ex)).map fun t => [t]
+
+theorem prodRules_ok {terminals : List Name} {args : List ProdArg} {seen : Bool} {out : List (List Name)}
+    (h : prodRules terminals args seen = .ok out) : out = args.flatMap (ProdArg.denote terminals) := by
+  induction args generalizing out seen with
+  | nil => simp [prodRules] at h; subst h; rfl
+  | cons a rest ih =>
+    cases a with
+    | empty =>
+      simp only [prodRules] at h
+      cases hr : prodRules terminals rest seen with
+      | error e => simp [hr] at h
+      | ok r => simp [hr] at h; subst h; simp [List.flatMap_cons, ProdArg.denote, ih hr]
+    | tuple p =>
+      simp only [prodRules] at h
+      cases hr : prodRules terminals rest seen with
+      | error e => simp [hr] at h
+      | ok r => simp [hr] at h; subst h; simp [List.flatMap_cons, ProdArg.denote, ih hr]
+    | anyExcept ex =>
+      simp only [prodRules] at h
+      cases seen with
+      | true => simp at h
+      | false =>
+        simp only [Bool.false_eq_true, if_false] at h
+        cases hg : getTokens terminals ex with
+        | error e => simp [hg] at h
+        | ok ts =>
+          cases hr : prodRules terminals rest true with
+          | error e => simp [hg, hr] at h
+          | ok r =>
+            simp [hg, hr] at h
+            subst h
+            simp [List.flatMap_cons, ProdArg.denote, ih hr, getTokens_ok hg]
+
+theorem lookup_seqGenProds_elem (res : Name) (syms : List Name) :
+    lookup (seqGenProds res syms) (res ++ seqElemSuffix) = some (syms.map fun s => [s]) := by
+  have h : res ≠ res ++ seqElemSuffix := fun e => append_ne_self res seqElemSuffix (by decide) e.symm
+  simp [seqGenProds, lookup, h]
+
 end Templates
